@@ -42,7 +42,8 @@ PROPS = {
         suites=[("dhcprt", 1500, 40000), ("dhcpparse", 2500, 60000), ("frame", 1500, 40000), ("bflag", 0, 0)],
         extracted=["dhcp.broadcastMask", "dhcp.dstChoice", "dhcp.magicParse", "dhcp.magicSerialise"],
         rule="structured DHCP messages (header boundary values, hlen 0..16, option value lengths 0..1500 incl. >255, "
-             "10% malformed stream), byte-level mutations of valid packets for the decoder, UDP payloads 0..1472 "
+             "10% malformed stream), byte-level mutations of valid packets for the decoder (every packet the real decoder "
+             "accepts is also re-encoded by the implementation and decoded again), UDP payloads 0..1472 "
              "(thorough: up to 65507), all 65536 flag values; a case is non-trivial when it carries options / a "
              "payload; distinct = distinct input line",
         assumptions=["HashMap iteration order is arbitrary: the model serialises in the order the harness reports",
